@@ -131,7 +131,11 @@ def run(tier):
     fns = [fn for fn in db.order if fn['n'] == 'match' and ((fn.get('cls') or {}).get('tn') == T + 'raw_string') and '/tao/pegtl/' in fn['pat'] and pol_of(fn)]
     plain = "raw_string<'[', '=', ']'>"
     def bound(fn):
-        return ({'quick': 6, 'thorough': 8} if (fn.get('cls') or {}).get('s', '').replace(T, '', 1) == plain else {'quick': 4, 'thorough': 6})[tier]
+        # the longest strings for the plain variant with actions enabled; the same code with actions disabled differs in one `if constexpr` at most: shorter bound
+        is_plain = (fn.get('cls') or {}).get('s', '').replace(T, '', 1) == plain
+        with_actions = bool((fn.get('ta') or [{}])[0].get('v'))
+        if is_plain: return {'quick': 6, 'thorough': 8 if with_actions else 6}[tier]
+        return {'quick': 4, 'thorough': 6}[tier]
     maxlen = max(bound(fn) for fn in fns) if fns else 0
     nchunks = 8 if tier == 'quick' else 32
     items = [(fn['u'], c, bound(fn)) for fn in fns for c in range(nchunks)]
